@@ -5,6 +5,10 @@ or array) with a combination of constraints (options in all documented notations
 comparison operator, anchored !format, dimension bounds, declaration) whose FINAL value is reached by the
 definition alone or by 1-2 later modifications (also in another unit) and lies on / near / off the constraint
 boundary; the node stands at root or inside a group between decoy nodes that carry their own constraints.
+Family cond_other_node adds a SECOND node to which the condition refers (`{?} < {?b}`): the final verdict then
+depends on which of the two nodes the later statements modify and - for histories of DIP(env) parses - in which
+parse; the statements are executed as one parse, as definitions | modifications ("chained") and as definitions
+followed by one parse per modification ("chained-each").
 Oracle: the reference interpretation of the generator AST (mc/refmodels/dip_gen_c.py, exact Fractions, own unit
 table): constraints satisfied  <=> parse() returns, and the returned environment equals the reference (names,
 values, units, attached options/condition/format); violated <=> parse() raises.
@@ -21,7 +25,11 @@ RULE = ("case = distinct DIP text of one constrained node (type x constraint kin
         "path (definition / 1-2 modifications / declaration) ending on, near (1e-9, 1e-5, 1e-3 relative) or off the "
         "constraint boundary, at root or inside a group between constrained decoy nodes; non-trivial = the node "
         "carries >= 1 constraint and the reference gives a verdict (accept or reject); texts are de-duplicated per "
-        "family, shards partition the texts by hash")
+        "family, shards partition the texts by hash.  Family cond_other_node: two nodes, the condition of one refers "
+        "to the other ({?} < {?b}); case = distinct text x history of parses, enumerated over which node the later "
+        "statements modify (none / referenced node / owner / both, either order) and over the split of the statements "
+        "into parses (one parse; definitions | all modifications; definitions | every modification by its own "
+        "DIP(env) parse)")
 ASSUMPTIONS = [
     "reference interpretation of the generator AST (mc/refmodels/dip_gen_c.py): exact rational arithmetic, unit "
     "factors from a hard-coded SI table (m cm mm km J erg), equality tolerance 1e-6 relative "
@@ -31,7 +39,12 @@ ASSUMPTIONS = [
     "comparisons exactly on a threshold that was unit-converted, intermediate values violating a !condition or a "
     "dimension bound, property lines after a modification, unanchored formats, conditions/options on arrays, "
     "value 0 (C14), none against !condition / !format, values with MORE axes than declared, a missing dimension that is declared without "
-    "any bound ([:]), the accept direction for int-node options that are not integral in the node's unit",
+    "any bound ([:]), the accept direction for int-node options that are not integral in the node's unit, "
+    "conditions comparing an int node with a float node (refused by the library on purpose), conditions referring "
+    "to more than one other node or to nodes of imported sources, histories in which an intermediate environment "
+    "violates a constraint",
+    "multi-parse histories: every DIP object gets an explicit name; a history is executed only when the reference "
+    "accepts every intermediate environment; its expected final verdict is the verdict of the concatenated text",
 ]
 
 
@@ -75,14 +88,16 @@ SELF = ["self"]
 
 def place(core_def, props, mods, placement):
     """core_def: def statement of node 'a' (ind 0); props: property statements (ind 2); mods: statements for 'a'."""
+    if isinstance(core_def, dict) and "core" in core_def:
+        return _place_pair(core_def, props, mods, placement)
     pre = []
     if isinstance(core_def, list):             # [preceding statements..., definition]; only used at root
         pre, core_def = core_def[:-1], core_def[-1]
-        if placement not in ("root", "chained"):
+        if placement not in ("root", "chained", "chained-each"):
             raise HarnessError("preceding statements are only placed at root")
     before = pre + [D("z", "int", "7"), OPT("7"), OPT("8")]
     after = [D("y", "str", S("q")), FMT("^q$")]
-    if placement in ("root", "chained"):
+    if placement in ("root", "chained", "chained-each"):
         return pre + [core_def] + props + mods
     if placement == "root+before":
         return before + [core_def] + props + mods
@@ -102,10 +117,48 @@ def place(core_def, props, mods, placement):
     raise HarnessError("placement " + placement)
 
 
-PLACEMENTS = dict(quick=["root", "group+decoys", "chained"],
-                  thorough=["root", "root+before", "root+after", "group", "group+decoys", "chained"])
+def _requalify(e, prefix):
+    """node references of a condition, re-rooted below a group"""
+    if isinstance(e, list):
+        if e and e[0] == "node":
+            return ["node", prefix + e[1]]
+        return [_requalify(x, prefix) for x in e]
+    return e
+
+
+def _place_pair(spec, props, mods, placement):
+    """spec = dict(core=definition of 'a', pre=[statements before it], post=[statements after its property lines]):
+    programs of SEVERAL nodes (the condition of 'a' refers to another node); valid in every placement - inside a
+    group the references of conditions and the names of the modifications are re-rooted (`{?g.b}`, `g.b = ..`)."""
+    pre, core, post = spec.get("pre", []), spec["core"], spec.get("post", [])
+    before = [D("z", "int", "7"), OPT("7"), OPT("8")]
+    after = [D("y", "str", S("q")), FMT("^q$")]
+    body = pre + [core] + props + post
+    if placement in ("root", "chained", "chained-each"):
+        return body + mods
+    if placement == "root+before":
+        return before + body + mods
+    if placement == "root+after":
+        return body + after + mods
+    if placement in ("group", "group+decoys"):
+        inner = (before if placement == "group+decoys" else []) + body + (after if placement == "group+decoys" else [])
+        out = [dict(k="group", ind=0, name="g")]
+        for st in inner:
+            st = dict(st, ind=st["ind"] + 2)
+            if st["k"] == "cond":
+                st["expr"] = _requalify(st["expr"], "g.")
+            out.append(st)
+        return out + [dict(m, name="g." + m["name"]) for m in mods]
+    raise HarnessError("placement " + placement)
+
+
+PLACEMENTS = dict(quick=["root", "group+decoys", "chained", "chained-each"],
+                  thorough=["root", "root+before", "root+after", "group", "group+decoys", "chained", "chained-each"])
 # "chained": the definition (with its constraints) is parsed first, the modifications are parsed by a second DIP
 # object on top of the returned environment (constraints of nodes of a base environment must still be enforced)
+# "chained-each": a history of parses - the definition, then EVERY modification by its own DIP(env) object on top of
+# the environment the previous parse returned (generated for programs with >= 2 modifications; every intermediate
+# environment must be acceptable by the reference, otherwise the history is not executed)
 
 
 def paths_numeric(typ, unit, final, v_ok, v_other, tier):
@@ -760,13 +813,169 @@ def fam_dims_missing(tier):
                [row, D("a", typ, {"ref": {"src": None, "path": "row", "slice": [[1, 3]]}}, None, [[2, 2]])], [], [])
 
 
-FAMILIES = dict(none_with_options=fam_none_with_options, options_by_ref=fam_options_by_ref, str_numeric=fam_str_numeric, mixed_logic=fam_mixed_logic, magnitude=fam_magnitude, int_options_nonintegral=fam_int_options_nonintegral,
+def NODE(path):
+    return ["node", path]
+
+
+def _strict(e):
+    """the expression contains a strict comparison or '!='"""
+    if isinstance(e, list):
+        if e and e[0] == "cmp" and e[1] in ("<", ">", "!="):
+            return True
+        return any(_strict(x) for x in e)
+    return False
+
+
+def _truth(ta, ua, tb, ub, expr, av, bv):
+    """reference value of the condition of `a` for the values av / bv of the nodes a / b (None: not judged)"""
+    env = G.REnv()
+    na, nb = G.RNode(ta, ua, G.leaf(av, ta)), G.RNode(tb, ub, G.leaf(bv, tb))
+    env.nodes = {"a": na, "b": nb}
+    try:
+        r = G.eval_expr(env, expr, na)
+    except G.Undemanded:
+        return None
+    return r[1] if r[0] == "b" else None
+
+
+def fam_cond_other_node(tier):
+    """the !condition of node `a` refers to ANOTHER node `b` (documented: `{?} < {?runtime.t_max} && {?} > 0`), so
+    whether `a` satisfies its constraint depends on the final value of `b` as well.  Enumerated: type / unit pairs of
+    (a, b) x comparison forms x every pair of final values (below / on / above each other) x definition order (b
+    before a, a before b) x WHICH node the later statements modify: none, only the referenced node b (1-2 times,
+    also in another unit), only the owner a, both in either order, and b / a+b declared first and assigned later.
+    Together with the placements this covers a constrained node that is taken over UNCHANGED from a base environment
+    while the node its condition refers to is modified by a later parse.  Initial and intermediate states always
+    satisfy the condition (intermediate violations are not judged)."""
+    B = NODE("b")
+    thorough = tier == "thorough"
+
+    def numconds(ua):
+        one = ["num", "1", ua]
+        c = [("self-lt-b", ["cmp", "<", SELF, B]), ("b-gt-self", ["cmp", ">", B, SELF]),
+             ("self-le-b", ["cmp", "<=", SELF, B]), ("self-ge-b", ["cmp", ">=", SELF, B]),
+             ("self-eq-b", ["cmp", "==", SELF, B]), ("self-ne-b", ["cmp", "!=", SELF, B]),
+             ("documented:lt-b-and-gt-1", ["and", ["cmp", "<", SELF, B], ["cmp", ">", SELF, one]]),
+             ("gt-b-or-eq-b", ["or", ["cmp", ">", SELF, B], ["cmp", "==", B, SELF]])]
+        if thorough:
+            c += [("self-gt-b", ["cmp", ">", SELF, B]), ("b-le-self", ["cmp", "<=", B, SELF]),
+                  ("b-eq-self", ["cmp", "==", B, SELF]), ("b-ne-self", ["cmp", "!=", B, SELF]),
+                  ("gt-1-and-lt-b", ["and", ["cmp", ">", SELF, one], ["cmp", "<", SELF, B]]),
+                  ("not-gt-b", ["not", ["par", ["cmp", ">", SELF, B]]])]
+        return c
+
+    specs = []           # (ta, ua, tb, ub, grid of a, grid of b (numerals in a's unit), conditions)
+    GI, GF = ["2", "3", "4"], ["2.5", "3", "3.003"]
+    combos = [("int", None, "int", None), ("float", None, "float", None), ("float", "m", "float", "m"),
+              ("float", "m", "float", "cm"), ("int", "m", "int", "cm")]
+    # not generated: a and b of DIFFERENT numeric types (int vs float) - the library refuses such comparisons on
+    # purpose ("Invalid comparison"), statement and documentation are silent about them
+    if thorough:
+        combos += [("int", "m", "int", "m"), ("float", "cm", "float", "m")]
+    for ta, ua, tb, ub in combos:
+        specs.append((ta, ua, tb, ub, GI if ta == "int" else GF, GI if tb == "int" else GF, numconds(ua)))
+    sconds = [("self-eq-b", ["cmp", "==", SELF, B]), ("b-eq-self", ["cmp", "==", B, SELF]),
+              ("self-ne-b", ["cmp", "!=", SELF, B]),
+              ("eq-b-or-eq-literal", ["or", ["cmp", "==", SELF, B], ["cmp", "==", SELF, ["str", "zz"]]]),
+              ("ne-b-and-ne-literal", ["and", ["cmp", "!=", SELF, B], ["cmp", "!=", SELF, ["str", "zz"]]])]
+    specs.append(("str", None, "str", None, [S("abc"), S("abd"), S("zz")], [S("abc"), S("abd"), S("Abc")], sconds))
+    bconds = [("self-eq-b", ["cmp", "==", SELF, B]), ("self-ne-b", ["cmp", "!=", SELF, B]),
+              ("self-or-b", ["or", SELF, B]), ("b-and-self", ["and", B, SELF]),
+              ("b-alone", B), ("not-b", ["not", B]), ("self-or-not-b", ["or", SELF, ["not", B]])]
+    specs.append(("bool", None, "bool", None, [True, False], [True, False], bconds))
+
+    def btext(v, ta, ua, tb, ub, unit=None):
+        """numeral of b (given in a's unit) written in `unit` (default: b's own unit)"""
+        unit = unit or ub
+        if tb not in ("int", "float") or ua is None or unit == ua:
+            return v
+        return G.dec(G.F(v) * G.UNITS[ua][0] / G.UNITS[unit][0])
+
+    for ta, ua, tb, ub, ga, gb, conds in specs:
+        num = ta in ("int", "float")
+        other = {"m": "cm", "cm": "m"}.get(ub)
+
+        def DA(v):
+            return D("a", ta, v, ua)
+
+        def DB(v):
+            return D("b", tb, None if v is None else btext(v, ta, ua, tb, ub), ub)
+
+        def MB(v, unit=None):
+            return M("b", btext(v, ta, ua, tb, ub, unit), unit)
+
+        truth = {cname: {(_hashable(x), _hashable(y)): _truth(ta, ua, tb, ub, expr, x, btext(y, ta, ua, tb, ub))
+                         for x in ga for y in gb} for cname, expr in conds}
+        for (cname, expr), af, bf in itertools.product(conds, ga, gb):
+            ok = truth[cname]
+            fin = ok[(_hashable(af), _hashable(bf))]
+            if fin is None:
+                continue
+            if num and ua != ub and _strict(expr) and G.F(af) == G.F(bf):
+                continue                  # strict comparison exactly on a unit-converted value: not judged
+
+            def good(x, y):
+                if num and ua != ub and _strict(expr) and G.F(x) == G.F(y):
+                    return False
+                return ok[(_hashable(x), _hashable(y))] is True
+
+            paths = [("def", af, bf, [])]
+            b0s = [y for y in gb if y != bf and good(af, y)]
+            a0s = [x for x in ga if x != af and good(x, bf)]
+            for y in b0s:
+                paths.append(("mod-b", af, y, [MB(bf)]))
+            if b0s:
+                paths.append(("mod-b-twice", af, b0s[0], [MB(b0s[0]), MB(bf)]))
+                if other and not (_strict(expr) and G.F(af) == G.F(bf)):
+                    # (a value written in another unit exactly on a strict boundary: not judged)
+                    paths.append(("mod-b-other-unit", af, b0s[0], [MB(bf, other)]))
+                if len(b0s) > 1:
+                    paths.append(("mod-b-via-other-value", af, b0s[0], [MB(b0s[1]), MB(bf)]))
+            for x in a0s:
+                paths.append(("mod-a", x, bf, [M("a", af)]))
+            both = [(x, y) for x in ga for y in gb if x != af and y != bf and good(x, y)]
+            ab = [(x, y) for x, y in both if good(af, y)]
+            ba = [(x, y) for x, y in both if good(x, bf)]
+            if ab:
+                paths.append(("mod-a-then-b", ab[0][0], ab[0][1], [M("a", af), MB(bf)]))
+            if ba:
+                paths.append(("mod-b-then-a", ba[0][0], ba[0][1], [MB(bf), M("a", af)]))
+                if thorough or cname.startswith(("self-lt", "documented", "self-eq", "b-alone")):
+                    paths.append(("mod-b-a-b", ba[0][0], ba[0][1], [MB(ba[0][1]), M("a", af), MB(bf)]))
+            paths.append(("decl-b", af, None, [MB(bf)]))
+            paths.append(("decl-a-b", None, None, [MB(bf), M("a", af)]))
+            for ptag, a0, b0, mods in paths:
+                for order in ("b-first", "a-first"):
+                    if order == "a-first" and not thorough and ptag not in ("def", "mod-b", "mod-b-twice", "decl-b"):
+                        continue
+                    tags = ["type=" + ta, "unit=" + str(ua), "kind=condition", "cond=other-node:" + cname,
+                            "other-type=" + tb, "other-unit=" + str(ub), "order=" + order,
+                            "final=%s/%s" % (G.render_value(af, ta), G.render_value(bf, tb)),
+                            "final-holds=%s" % fin, "path=" + ptag]
+                    spec = dict(core=DA(a0), pre=[DB(b0)] if order == "b-first" else [],
+                                post=[DB(b0)] if order == "a-first" else [])
+                    yield tags, spec, [COND(expr)], mods
+                    if thorough and ptag in ("def", "mod-b", "mod-a"):
+                        # the referenced node carries a constraint of its own (documented example: t_max > 0)
+                        own = COND(["cmp", "!=", SELF, ["num", "7", ub]] if tb in ("int", "float") else
+                                   (["cmp", "!=", SELF, ["str", "q"]] if tb == "str" else
+                                    ["or", SELF, ["not", SELF]]))
+                        spec2 = dict(core=DA(a0), pre=[DB(b0), own] if order == "b-first" else [],
+                                     post=[DB(b0), own] if order == "a-first" else [])
+                        yield tags + ["other-node-constrained"], spec2, [COND(expr)], mods
+
+
+def _hashable(v):
+    return v["s"] if isinstance(v, dict) else v
+
+
+FAMILIES = dict(cond_other_node=fam_cond_other_node, none_with_options=fam_none_with_options, options_by_ref=fam_options_by_ref, str_numeric=fam_str_numeric, mixed_logic=fam_mixed_logic, magnitude=fam_magnitude, int_options_nonintegral=fam_int_options_nonintegral,
                 dims_missing=fam_dims_missing,
                 num_options=fam_num_options, num_condition=fam_num_condition, num_pairs=fam_num_pairs,
                 str=fam_str, bool=fam_bool, declared=fam_declared, dims=fam_dims)
 # families in which both verdicts must occur (vacuity guard)
 BOTH = ["num_options", "num_condition", "num_pairs", "str", "bool", "declared", "dims", "dims_missing", "magnitude", "mixed_logic",
-        "options_by_ref", "str_numeric", "none_with_options"]
+        "options_by_ref", "str_numeric", "none_with_options", "cond_other_node"]
 
 
 # ------------------------------------------------------------------------------------------------ judging
@@ -788,17 +997,29 @@ def _split(prog):
 def judge(prog, tags):
     """-> (verdict, failure-or-None, text); verdict in accept / reject / undemanded"""
     ref = G.interpret(prog)
-    if "placement=chained" in tags:
+    each = "placement=chained-each" in tags
+    if each or "placement=chained" in tags:
         first, second = _split(prog)
-        r1 = G.interpret(first)
-        if not second or r1[0] != "ok":
-            return "skipped", None, ""           # no second step / first step not acceptable on its own
-        o1, t1 = G.execute(first, _scratch(), name="first")
-        if o1[0] != "ok":
-            out, text = o1, t1
-        else:
-            out, t2 = G.execute(second, _scratch(), base_env=o1[1], name="second")
-            text = t1 + "\n--- DIP(env) ---\n" + t2
+        if not second or (each and len(second) < 2):
+            return "skipped", None, ""           # no second step / the history equals the one of "chained"
+        stages = [[st] for st in second] if each else [second]
+        acc = list(first)
+        for stg in [[]] + stages[:-1]:
+            acc = acc + stg
+            if G.interpret(acc)[0] != "ok":
+                return "skipped", None, ""       # an intermediate environment is not acceptable on its own
+        out, text = G.execute(first, _scratch(), name="first")
+        for i, stg in enumerate(stages):
+            if out[0] != "ok":
+                break
+            out, t2 = G.execute(stg, _scratch(), base_env=out[1], name="second" if i == 0 else "stage%d" % (i + 2))
+            text += "\n--- DIP(env) ---\n" + t2
+            if out[0] != "ok" and i < len(stages) - 1:
+                # the reference accepts this intermediate program: valid text was rejected
+                case = dict(prog=prog, tags=tags, text=text)
+                return "accept", failure("constraints/" + _kinds(tags), case,
+                                         "parse %d of the history accepted" % (i + 2), "%s: %s" % (out[1], out[2]),
+                                         tags=tags, behaviour="rejected-valid:intermediate-parse:raises:" + out[1]), text
     else:
         out, text = G.execute(prog, _scratch())
     case = dict(prog=prog, tags=tags, text=text)
@@ -867,11 +1088,13 @@ def run_shard(desc):
     seen = set()
     try:
         for tags, d, props, mods in FAMILIES[fam](tier):
-            if "root-only" in tags and pl not in ("root", "chained"):
+            if "root-only" in tags and pl not in ("root", "chained", "chained-each"):
+                continue
+            if pl == "chained-each" and len(mods) < 2:
                 continue
             prog = place(d, props, mods, pl)
             key = G.render(prog)
-            if pl == "chained" and not any(st["k"] == "mod" for st in prog):
+            if pl in ("chained", "chained-each") and not any(st["k"] == "mod" for st in prog):
                 continue
             if key in seen:
                 continue
@@ -887,6 +1110,8 @@ def run_shard(desc):
             if verdict != "undemanded":
                 sh.nontrivial += 1
                 sh.add_to_set("verdicts", (fam, verdict))
+            if fam == "cond_other_node" and verdict != "undemanded":
+                sh.add_to_set("cross", (pl, [t[5:] for t in tags if t.startswith("path=")][0], verdict))
             if bad:
                 sh.fail(bad)
             if len(sh.samples) < 1 and verdict == "reject" and k == 0:
@@ -915,10 +1140,25 @@ def finish(total, tier, seed):
     for fam in BOTH:
         if (fam, "accept") not in v or (fam, "reject") not in v:
             raise HarnessError("vacuous family %s: verdicts %r" % (fam, sorted(x for x in v if x[0] == fam)))
+    # a node taken over unchanged from a base environment whose condition refers to a node that a LATER parse modifies:
+    # both verdicts must have been demanded in every multi-parse placement
+    cross = total.sets.get("cross", set())
+    for pl, ptag in (("chained", "mod-b"), ("chained", "mod-b-twice"), ("chained-each", "mod-b-twice"),
+                     ("chained-each", "mod-b-then-a"), ("root", "mod-b"), ("group+decoys", "mod-b")):
+        for verdict in ("accept", "reject"):
+            if (pl, ptag, verdict) not in cross:
+                raise HarnessError("vacuous: no %s case for path %s in placement %s" % (verdict, ptag, pl))
     und = sum(n for k, n in total.hist.items() if k.endswith(":undemanded"))
+    hist_cross = {}
+    for pl, ptag, verdict in cross:
+        hist_cross.setdefault(pl, set()).add(ptag)
     return dict(families=sorted(FAMILIES), placements=PLACEMENTS[tier], not_judged=und, caps_hit=[],
-                bounds=dict(constraints_per_node="<=3 kinds", modifications="<=2", array_rank="<=2",
-                            near_offsets=["1e-9", "1e-5", "1e-3"]))
+                bounds=dict(constraints_per_node="<=3 kinds", modifications="<=2 (<=3 in cond_other_node)",
+                            array_rank="<=2", near_offsets=["1e-9", "1e-5", "1e-3"], parses_per_history="<=4",
+                            nodes_referred_to_by_a_condition="<=1 other node"),
+                cross_node_condition_paths={pl: sorted(v) for pl, v in sorted(hist_cross.items())},
+                cross_node_condition_cases=sum(n for k, n in total.hist.items()
+                                               if k.startswith("cond_other_node:") and not k.endswith(":undemanded")))
 
 MANIFEST = dict(
     text="Bounded exhaustive enumeration of single-node DIP programs: every type (int, float, str, bool; scalar and "
@@ -935,7 +1175,15 @@ MANIFEST = dict(
          "lack a bounded declared dimension (scalar / flat list, also via modification and sliced injection), "
          "declarations) x value paths "
          "(definition, 1-2 modifications also in other units, declaration) x final values on / 1e-9 / 1e-5 / 1e-3 off / "
-         "far off the boundary, at root and inside a group between constrained decoy nodes.  Coverage statement: for "
+         "far off the boundary, at root and inside a group between constrained decoy nodes; every program with "
+         "modifications also as a history of parses (definitions parsed first, then all modifications by one "
+         "DIP(env) parse, or every modification by its own DIP(env) parse, <= 4 parses).  Conditions that refer to "
+         "ANOTHER node (`{?} < {?b}`, the documented `{?} < {?b} && {?} > 1`, <= >= == != and or/not forms; int, "
+         "float with equal / different units, str, bool; either definition order) x all pairs of final values "
+         "(below / on / above each other) x which node is modified afterwards (none, only the referenced node 1-2 "
+         "times also in another unit, only the owner, both in either order, declared-then-assigned) in all these "
+         "placements - in particular a constrained node inherited unchanged from a base environment while a later "
+         "parse changes the node its condition refers to.  Coverage statement: for "
          "every generated text parse() returns exactly when the reference says all constraints hold on the final "
          "values, and the returned environment equals the reference.",
     note="Trusted: the reference interpreter (exact rationals, own SI factor table, tolerance 1e-6 from "
